@@ -7,8 +7,9 @@ Everything here is a total function over `Nat`/`Int`/`List`; no Mathlib.
   psABI text (classification → registers or stack, `long double` in 16-byte aligned memory,
   aggregates entirely in registers or entirely in memory).  Independent of MIR.
 * `machStep` / `calleePlace` — model of the incoming-argument loop of `target_machinize`
-  (`mir-gen-x86_64.c:703-825`): same counters, same tests, stack arguments addressed from the frame
-  pointer with displacement `mem_size + 8 + start_sp_from_bp_offset`.
+  (`mir-gen-x86_64.c:703-836`): same counters, same tests, stack arguments addressed from the frame
+  pointer with displacement `mem_size + 8 + start_sp_from_bp_offset`, `mem_size` rounded up to 16
+  before a `long double` (since fix 6f58eeff).
 * `vaStartStep` / `vaStartGen` — model of the `MIR_VA_START` expansion (`mir-gen-x86_64.c:862-879`).
 * `vaArgStep`, `vaBlockArg` — models of `va_arg_builtin` / `va_block_arg_builtin`
   (`mir-x86_64.c:47-113`); `gccVaArg` — what `va_arg (va, T)` compiled by the C compiler does in
@@ -93,12 +94,6 @@ def sysvWalk (s : SysV) : List PTy → List Place × SysV
 
 def sysvIncoming (ps : List PTy) : List Place := (sysvWalk .init ps).1
 
-/-- every `long double` met while walking `ps` from `s` finds the stack offset already 16-aligned
-(the psABI padding is never needed) -/
-def ldAligned (s : SysV) : List PTy → Bool
-  | [] => true
-  | p :: ps => (match p with | .ld => s.off % 16 == 0 | _ => true) && ldAligned (sysvStep s p).2 ps
-
 /-! ## `target_machinize`: incoming arguments of generated code -/
 
 /-- location as the generated code addresses it -/
@@ -142,7 +137,9 @@ def machStep (s : MachSt) : PTy → List MPiece × MachSt
        { s with intArgNum := s.intArgNum + 1, fpArgNum := s.fpArgNum + 1 })
     else
       (fpRun (argDisp s.memSize) (blkSize / 8), { s with memSize := s.memSize + blkSize })
-  | .ld => ([.fp (argDisp s.memSize), .fp (argDisp s.memSize + 8)], { s with memSize := s.memSize + 16 })
+  | .ld =>
+    let ms := (s.memSize + 15) / 16 * 16      -- `if (type == MIR_T_LD) mem_size = (mem_size + 15) / 16 * 16`
+    ([.fp (argDisp ms), .fp (argDisp ms + 8)], { s with memSize := ms + 16 })
   | .flt | .dbl =>
     if fpArgRegP s.fpArgNum then ([.xmm s.fpArgNum], { s with fpArgNum := s.fpArgNum + 1 })
     else ([.fp (argDisp s.memSize)], { s with fpArgNum := s.fpArgNum + 1, memSize := s.memSize + 8 })
@@ -188,7 +185,7 @@ structure VaSt where
 
 def vaStartStep (s : VaSt) : PTy → VaSt
   | .flt | .dbl => { s with fp := s.fp + 16, mem := if s.gp ≥ 176 then s.mem + 8 else s.mem }
-  | .ld => { s with mem := s.mem + 16 }
+  | .ld => { s with mem := (s.mem + 15) / 16 * 16 + 16 }
   | .blk _ sz => { s with mem := s.mem + sz }
   | .int | .rblk => { s with gp := s.gp + 8, mem := if s.gp + 8 ≥ 48 then s.mem + 8 else s.mem }
 
@@ -239,19 +236,24 @@ def vaBlockArg (v : VaList) (sz k : Nat) : List Src × VaList :=
     else if size > 8 then ([.rsa v.gp, .rsa (v.gp + 8)], { v with gp := v.gp + 16 })
     else ([.rsa v.gp], { v with gp := v.gp + 8 })
   else if k == 2 then
-    if size > 8 then ([.rsa v.fp, .rsa (v.fp + 16)], { v with fp := v.fp + 32 })
+    if v.fp + size * 2 > 176 then inMem
+    else if size > 8 then ([.rsa v.fp, .rsa (v.fp + 16)], { v with fp := v.fp + 32 })
     else ([.rsa v.fp], { v with fp := v.fp + 16 })
   else if k == 3 || k == 4 then
     if v.fp > 160 || v.gp > 40 then inMem
     else (if k == 3 then [.rsa v.gp, .rsa v.fp] else [.rsa v.fp, .rsa v.gp],
-          { v with fp := v.fp + 8, gp := v.gp + 8 })
+          { v with fp := v.fp + 16, gp := v.gp + 8 })
   else inMem
 
 def vaArgStep (v : VaList) : PTy → List Src × VaList
   | .flt | .dbl =>
     if v.fp ≤ 160 then ([.rsa v.fp], { v with fp := v.fp + 16 })
     else ([.ovf v.oaa], { v with oaa := v.oaa + 8 })
-  | .ld => ([.ovf v.oaa, .ovf (v.oaa + 8)], { v with oaa := v.oaa + 16 })
+  | .ld =>
+    -- the builtin rounds the overflow *address* up to 16; the first stack-argument word is 16-byte
+    -- aligned (entry rsp ≡ 8 mod 16), so this is the same rounding of the offset
+    let o := (v.oaa + 15) / 16 * 16
+    ([.ovf o, .ovf (o + 8)], { v with oaa := o + 16 })
   | .int | .rblk =>
     if v.gp ≤ 40 then ([.rsa v.gp], { v with gp := v.gp + 8 })
     else ([.ovf v.oaa], { v with oaa := v.oaa + 8 })
@@ -312,15 +314,6 @@ def shimPlace (ps : List PTy) : List Place :=
 left it after fetching the named parameters -/
 def vaStartShim (ps : List PTy) : VaList := (shimWalk .shimInit ps).2
 
-/-- blocks of SSE class must find their registers; the mixed classes are excluded (see `vaBlockArg`) -/
-def blkSafe (s : SysV) : List PTy → Bool
-  | [] => true
-  | p :: ps =>
-    (match p with
-     | .blk 2 sz => decide (s.nf + words sz ≤ 8)
-     | .blk 3 _ | .blk 4 _ => false
-     | _ => true) && blkSafe (sysvStep s p).2 ps
-
 /-! ## hypotheses of the partial theorems, as executable predicates -/
 
 def isFp : PTy → Bool | .flt | .dbl => true | _ => false
@@ -334,10 +327,10 @@ def intCount : List PTy → Nat
 def fpCount : List PTy → Nat
   | [] => 0
   | p :: ps => (if isFp p then 1 else 0) + fpCount ps
-/-- block parameters the `va_start` expansion accounts for correctly: memory class, size a multiple of 16 -/
+/-- block parameters the `va_start` expansion accounts for correctly: memory class, size a multiple of 8 -/
 def blkPlain : List PTy → Bool
   | [] => true
-  | .blk k sz :: ps => k == 0 && sz % 16 == 0 && blkPlain ps
+  | .blk k sz :: ps => k == 0 && sz % 8 == 0 && blkPlain ps
   | _ :: ps => blkPlain ps
 def allWf : List PTy → Bool
   | [] => true
